@@ -1006,7 +1006,7 @@ impl Hist {
                 let auth = r.pick(&[0u8, 0, 0, 0, 0, 0, 1, 2]);
                 format!("H xliq {} {} {} {} {} {} {} {}", ver, id, b(inc), liq, r.pick(&[0u8, 0, 1, 2]), fa, fb, auth)
             }
-            45 => format!("H xsub {} {} {}", if r.chance(1, 2) { "swap" } else { "liq" }, r.below(15), id),
+            45 => if r.chance(1, 4) { format!("H xsub grid 0 {} 0", id) } else { format!("H xsub {} {} {} {}", if r.chance(1, 2) { "swap" } else if r.chance(1, 2) { "liq" } else { "dec" }, r.below(15), id, if r.chance(1, 2) { 0 } else { 1 + r.below(5) }) },
             46..=49 => format!("H upd {}", id),
             50..=54 => format!("H cfees {}", id),
             55..=57 => "H cproto".to_string(),
